@@ -182,3 +182,29 @@ def run_judge(module, cfg, records, workers=16, timeout=3600, env=None, heap='6g
         raise MachineryError('trace acceptance failed: %d records, %d judged; missing %s\n%s'
                              % (len(want), len(checked), missing, out[-2000:]))
     return verdicts, lenient, drift, res
+
+
+def run_apalache(spec_relpath, cinit, init, inv, length, timeout=600):
+    """Bounded symbolic check with Apalache (used for inductive invariants of small integer specs).
+    -> 'ok' | 'violation' | 'unavailable' | 'error:<tail of output>'"""
+    import shutil
+    exe = shutil.which('apalache-mc')
+    if not exe:
+        return 'unavailable'
+    out = scratch_dir('apa')
+    try:
+        cmd = [exe, 'check', '--cinit=' + cinit, '--init=' + init, '--inv=' + inv, '--length=%d' % length,
+               '--out-dir=' + out, os.path.join(SPECS, spec_relpath)]
+        try:
+            p = subprocess.run(cmd, stdout=subprocess.PIPE, stderr=subprocess.STDOUT, timeout=timeout, cwd=out)
+        except subprocess.TimeoutExpired:
+            return 'error:timeout'
+        text = p.stdout.decode('utf8', errors='replace')
+        if 'EXITCODE: OK' in text:
+            return 'ok'
+        if 'EXITCODE: ERROR (12)' in text and 'violated' in text:
+            return 'violation'
+        return 'error:' + text[-600:]
+    finally:
+        shutil.rmtree(out, ignore_errors=True)
+
